@@ -452,7 +452,11 @@ def run(ctx):
             ctx.violation(sig, what, {"kind": "savepoint", "cfg": cfg, "history": h, "via": via})
         if len(samples) < 4 and len(h) == depth:
             samples.append({"cfg": cfg, "history": h, "via": via, "stream_bytes": n})
+    # WHFast512 exists only in the AVX512 build: its part runs in a process of its own (mc/w512.py)
+    from .. import w512
+    n_w512 = w512.run(ctx, "C05")
     cov = {
+        "whfast512_cases": n_w512,
         "states": len(states), "transitions": trans + nA, "traces_validated_against_impl": trans + nA,
         "samples": samples or [{"cfg": cfgs[0], "history": []}],
         "configs": len(cfgs), "histories_per_config": len(H), "max_depth": depth,
